@@ -35,6 +35,7 @@ def _name(fn):
 def run(ctx, tier):
     rec = probe.recorded()
     probe.RECORD = None
+    skip = set(filter(None, os.environ.get("PMV_REPLAY_SKIP", "").split(",")))
     if not rec:
         return
     rng = random.Random(ctx.seed * 31 + ctx.shard)
@@ -67,7 +68,7 @@ def run(ctx, tier):
         if not helpers or not a or not isinstance(a[0], str) or not (8 <= len(a[0]) <= 28):
             continue
         hn, hf = helpers[rng.randrange(len(helpers))]
-        if nint % 3 == 2:
+        if nint % 3 == 2 and "malformed" not in skip:
             # ... also on a string that is NOT a frame (a Mode A/C reply, a truncated or empty line): whatever that call does
             # or raises, it must leave nothing behind for the next, well-formed call
             bad_ = rng.choice((a[0][:4], a[0][:13], a[0][:2], "", "7700", a[0] + a[0][:3]))
@@ -115,7 +116,7 @@ def run(ctx, tier):
     except Exception:
         np = None
     ns = 0
-    if np is not None:
+    if np is not None and "numpy_str" not in skip:
         for i in order[:3000]:
             fn, a, k, want = rec[i]
             if not any(type(x) is str and len(x) >= 8 for x in a):
